@@ -19,13 +19,62 @@ func init() { register("C07", "other", runC07) }
 // lookup in one, the rules parameter of sanitizeAttrs, or a map merged from them).
 func ruleSource(A *pa.Analysis, F *model.Fields, v ssa.Value) (string, bool) {
 	s := A.Sym.Of(v)
+	// the Policy field the value is read from (directly, or through a lookup in it)
+	var fieldOf func(x ssa.Value, d int) string
+	fieldOf = func(x ssa.Value, d int) string {
+		if d > 4 {
+			return ""
+		}
+		if f := model.LoadedPolicyField(x); f != "" {
+			return f
+		}
+		switch y := x.(type) {
+		case *ssa.Lookup:
+			return fieldOf(y.X, d+1)
+		case *ssa.Extract:
+			return fieldOf(y.Tuple, d+1)
+		}
+		return ""
+	}
+	fld := fieldOf(v, 0)
 	for _, role := range []string{"elsAndAttrs", "elsMatchingAndAttrs", "globalAttrs", "elsAndStyles", "elsMatchingAndStyles", "globalStyles", "allowURLSchemes", "allowURLSchemeRegexps", "bareRegexps"} {
-		if f := F.Get(role); f != "" && strings.Contains(s, "."+f) {
-			return role, true
+		f := F.Get(role)
+		if f == "" {
+			continue
+		}
+		if fld != "" {
+			if fld == f {
+				return role, true
+			}
+			continue
+		}
+		// fall back on the symbolic rendering (whole field name, not a prefix of a longer one)
+		if i := strings.Index(s, "."+f); i >= 0 {
+			rest := s[i+1+len(f):]
+			if rest == "" || !(rest[0] == '_' || rest[0] >= 'a' && rest[0] <= 'z' || rest[0] >= 'A' && rest[0] <= 'Z' || rest[0] >= '0' && rest[0] <= '9') {
+				return role, true
+			}
 		}
 	}
 	if strings.Contains(s, "lookup(aps,") || strings.Contains(s, "lookup(phi(sps)") {
 		return "element rules", true
+	}
+	// structurally (whatever the variables are called): a lookup in the per-element rule map — a map parameter of the
+	// function, or a local map of rules that is not itself a Policy field (a φ / make / lookup result)
+	base := v
+	if ex, ok := base.(*ssa.Extract); ok {
+		base = ex.Tuple
+	}
+	if lk, ok := base.(*ssa.Lookup); ok && model.LoadedPolicyField(lk.X) == "" {
+		if mt, ok := lk.X.Type().Underlying().(*types.Map); ok {
+			el := mt.Elem().String()
+			if strings.HasSuffix(el, "attrPolicy") || strings.HasSuffix(el, "stylePolicy") {
+				switch lk.X.(type) {
+				case *ssa.Parameter, *ssa.Phi, *ssa.MakeMap, *ssa.Lookup, *ssa.Extract:
+					return "element rules", true
+				}
+			}
+		}
 	}
 	return "", false
 }
